@@ -414,8 +414,8 @@ def parse_kani_result_file(path):
 
 def kani_group(pkg, obs, flags, stage_dir, scratch, tier):
     """Run all harnesses (obligation dicts with 'harness') of one package; fill in results."""
-    jobs = min(len(obs), int(os.environ.get("VERIF_KANI_JOBS", "8")))
-    timeout_each = max(o.get("timeout", 600) for o in obs)
+    jobs = min(len(obs), int(os.environ.get("VERIF_KANI_JOBS", "12")))
+    timeout_each = max(o.get("timeout", 1500 if tier == "quick" else 3600) for o in obs)
     tdir = os.path.join(scratch, "target-" + pkg)
     cmd = ["cargo", "kani", "-p", pkg, "--target-dir", tdir, "--output-format", "terse", "-j", str(jobs),
            "--harness-timeout", f"{timeout_each}s", "--output-into-files", "-Z", "unstable-options"]
@@ -607,8 +607,12 @@ def kani_playback(pkg, ob, flags, stage_dir, scratch):
     rc2, out2, err2, secs2, to2 = run(cmd2, cwd=stage_dir, timeout=1800, env={"CARGO_TARGET_DIR": os.path.join(scratch, "target-playback-" + pkg)})
     res["playback_cmd"] = " ".join(cmd2)
     res["playback_rc"] = rc2
-    res["playback_output_tail"] = (out2 + "\n" + err2)[-3000:]
-    res["reproduced_on_real_code"] = (rc2 != 0) and ("panicked" in out2 + err2 or "FAILED" in out2)
+    tail = "\n".join(l for l in (out2 + "\n" + err2).split("\n") if len(l) < 400)
+    res["playback_output_tail"] = tail[-3000:]
+    ran = re.search(r"test result: (ok|FAILED)\. (\d+) passed; (\d+) failed", out2 + err2)
+    res["native_tests_ran"] = bool(ran)
+    res["reproduced_on_real_code"] = bool(ran) and int(ran.group(3)) > 0
+    res["native_all_passed"] = bool(ran) and int(ran.group(3)) == 0 and int(ran.group(2)) > 0
     return res
 
 
@@ -839,6 +843,7 @@ def check(prop, tier, seed, units, scratch, t0, args):
             continue
         seen.add(key)
         print(f"KNOWN-FINDING: property={prop} obligation={k['obligation']} {k['what']}")
+    spurious = []
     if violations:
         rcode = 1
         for o in violations:
@@ -864,6 +869,17 @@ def check(prop, tier, seed, units, scratch, t0, args):
                 rep["counterexample_playback"] = pb
                 if not pb.get("generated"):
                     suffix = " no-failing-input-found"
+                only_asserts = all(".assertion." in (c.get("name") or "") for c in (o.get("failed_checks") or [{}]))
+                if pb.get("native_all_passed") and only_asserts:
+                    # Kani's counterexample for a plain assertion does not fail when executed natively on the real code:
+                    # the model is imprecise here (e.g. address comparisons); undecided, not an alarm.
+                    o["undecided"] = True
+                    o["messages"] = ["counterexample did not replay on the real code (native playback of every generated test passed): " + "; ".join(o.get("messages") or [])[:600]]
+                    spurious.append(o)
+                    with open(rp, "w") as f:
+                        f.write(f"# NOT A VIOLATION: Kani counterexample did not replay natively\n# property={prop}\n# obligation={o['id']}\n")
+                        f.write(json.dumps(rep, indent=1)[:60000])
+                    continue
             else:
                 # Verus: paired native search, if the unit declares one for this obligation
                 unit = [u for u in involved_units if u["name"] == o["unit"]][0]
@@ -882,11 +898,17 @@ def check(prop, tier, seed, units, scratch, t0, args):
                     suffix = " no-failing-input-found"
             with open(rp, "w") as f:
                 f.write(f"# replay file for a failed contract obligation\n# property={prop}\n# obligation={o['id']}\n")
-                f.write(json.dumps(rep, indent=1))
+                f.write(json.dumps(rep, indent=1)[:200000])
                 f.write("\n")
             print(f"VIOLATION property={prop} replay={rp}{suffix}")
             for msg in (o.get("messages") or [])[:4]:
                 log("   " + msg.replace("\n", "\n   ")[:1500])
+        violations = [o for o in violations if o not in spurious]
+        undecided += spurious
+        if not violations:
+            rcode = 2
+            for o in spurious:
+                log(f"UNDECIDED obligation {o['id']}: {o['messages'][0][:400]}")
     elif undecided:
         rcode = 2
         for o in undecided:
@@ -961,7 +983,9 @@ def write_evidence(prop, tier, seed, obs, infos, wall, note=None, violations=0, 
         "property_id": prop, "tier": tier, "seed": seed, "level": level, "coverage": cov,
         "assumptions": sorted(set(assumptions)), "wall_s": round(wall, 1), "violations": violations,
     }
-    with open(os.path.join(EVID, f"{prop}.json"), "w") as f:
+    # partial (debugging) runs never overwrite the evidence file of record
+    fname = f"{prop}.json" if not only else f"{prop}.partial.json"
+    with open(os.path.join(EVID, fname), "w") as f:
         json.dump(ev, f, indent=1)
 
 
